@@ -146,8 +146,7 @@ def build(rnd, tier, flags):
     cand = [i for i, (st, _) in enumerate(flat) if "(" in st.src or r.chance(10)]
     for i in cand[: (12 if tier == "quick" else 40)]:
         st, d = flat[i]
-        lax = (st.kind in ("use", "end_interface", "interface", "tb_generic")
-               or (st.kind == "attr" and st.src.startswith("procedure"))
+        lax = (st.kind in ("end_interface", "interface", "tb_generic")
                or (st.kind in ("type_decl", "attr") and ("intent(" in st.src)))
         if lax and skip("no_paren_edit_use_procdecl_endinterface"):
             continue
